@@ -53,7 +53,7 @@ DoTick ==
   /\ Dom(c) # {}
   /\ c' = Tick(c, 1)
   /\ last' = [Ev0 EXCEPT !.op = "tick", !.d = 1]
-  /\ g' = g
+  /\ g' = GNext(g, [Ev0 EXCEPT !.op = "tick", !.d = 1], Tick(c, 1))
   /\ UNCHANGED <<cfg, ver>>
 
 Sizes == IF cfg.maxmem = 0 THEN {1} ELSE SizesMem
@@ -82,7 +82,7 @@ StateOK == ~last.panic => Consistent(c) /\ WithinLimits(cfg, c)
 GhostAgrees ==
   ~last.panic =>
     /\ SeqRange(g.fifo) = Dom(c) /\ SeqRange(g.lru) = Dom(c)
-    /\ \A k \in Dom(c) : g.val[k] = c.store[k].val
+    /\ \A k \in Dom(c) : g.val[k] = c.store[k].val /\ g.age[k] = c.store[k].age
     /\ FrequencyPolicy(cfg.policy) => \A k \in Dom(c) : g.gh[k] = c.store[k].hits
 
 \* ... and is a function of the engine state: this is what lets the edge-conformance check look at
